@@ -297,8 +297,11 @@ impl GitDiff {
             let path = prefix.join(name);
 
             if let Some(base_entry) = base_entries.get(name) {
-                // Entry exists in both trees - check if OIDs differ
-                if base_entry.oid != target_entry.oid {
+                // Entry exists in both trees - check if OIDs differ. A symbolic link is stored
+                // as a blob, so a link and a regular file can share an OID: compare that too.
+                if base_entry.oid != target_entry.oid
+                    || is_special(base_entry.kind) != is_special(target_entry.kind)
+                {
                     Self::process_changed_entry(
                         base_entry,
                         target_entry,
@@ -372,10 +375,25 @@ impl GitDiff {
                 // All files in the new directory are added
                 Self::process_added_entry(target_entry, path, changed)?;
             }
+            // Type changed: submodule or symbolic link -> regular file or directory.
+            // Everything the new entry holds is added.
+            (
+                EntryKind::Commit | EntryKind::Link,
+                EntryKind::Blob | EntryKind::BlobExecutable | EntryKind::Tree,
+            ) => {
+                Self::process_added_entry(target_entry, path, changed)?;
+            }
+            // Type changed: regular file or directory -> submodule or symbolic link.
+            // Everything the old entry held is "deleted".
+            (
+                EntryKind::Blob | EntryKind::BlobExecutable | EntryKind::Tree,
+                EntryKind::Commit | EntryKind::Link,
+            ) => {
+                Self::process_deleted_entry(base_entry, path, deleted_candidates)?;
+            }
             // Submodules (Commit) and symbolic links (Link) are intentionally skipped.
             // We only track regular file changes, not submodule pointer updates.
-            (EntryKind::Commit | EntryKind::Link, _) | (_, EntryKind::Commit | EntryKind::Link) => {
-            }
+            (EntryKind::Commit | EntryKind::Link, EntryKind::Commit | EntryKind::Link) => {}
         }
         Ok(())
     }
@@ -445,6 +463,11 @@ impl GitDiff {
         }
         Ok(map)
     }
+}
+
+/// Submodules and symbolic links: entries that are not regular files or directories.
+const fn is_special(kind: EntryKind) -> bool {
+    matches!(kind, EntryKind::Commit | EntryKind::Link)
 }
 
 /// Helper struct to hold tree entry data for efficient comparison.
